@@ -484,7 +484,7 @@ def odSet (k : String) (v : Val) : List (String × Val) → List (String × Val)
   | [] => [(k, v)]
   | (k', v') :: r => if k' == k then (k', v) :: r else (k', v') :: odSet k v r
 
-/-- `gate_def(*args)`; coincides with `GateDef.callPos` when the parameter names are distinct -/
+/-- `gate_def(*args)` (same computation as the shared `GateDef.callPos`; kept here with its own lemmas) -/
 def callDef (gd : GateDef) (args : List Val) : M Stmt := do
   if args.length > gd.params.length then throw (.jaqal "too-many-parameters")
   let bound := ((gd.params.map (·.1)).zip args).foldl (fun acc p => odSet p.1 p.2 acc) []
